@@ -9,6 +9,7 @@
 #include <fcppt/container/bitfield/object_impl.hpp>
 #include <fcppt/config/external_begin.hpp>
 #include <algorithm>
+#include <limits>
 #include <fcppt/config/external_end.hpp>
 
 namespace fcppt
@@ -106,6 +107,21 @@ operator~(fcppt::container::bitfield::object<ElementType, InternalType> _field)
       _field.array().end(),
       _field.array().begin(),
       [](InternalType const _arg) { return ~_arg; });
+
+  // Clear the unused bits of the last word again. Otherwise the complement
+  // would compare (and hash) differently from a bitfield that holds the same
+  // enumerators but was built from them directly.
+  using object_type = fcppt::container::bitfield::object<ElementType, InternalType>;
+
+  constexpr typename object_type::size_type const used_bits{
+      object_type::static_size::value %
+      static_cast<typename object_type::size_type>(std::numeric_limits<InternalType>::digits)};
+
+  if constexpr (used_bits != 0U)
+  {
+    _field.array().get_unsafe(object_type::array_size::value - 1U) &= static_cast<InternalType>(
+        static_cast<InternalType>(static_cast<InternalType>(1U) << used_bits) - 1U);
+  }
 
   return _field;
 }
